@@ -670,7 +670,8 @@ where
     fn parse_add_symbol(&mut self, from: &str) -> Result<Self::Size, Self::Error> {
         let symbol = Self::DataFactory::parse_symbol(from)?;
         let symbol_index = self.push_to_data_block(BasicData::Symbol(symbol))?;
-        let list_index = self.push_to_data_block(BasicData::CharList(from.len()))?;
+        // length in characters, one cell is pushed per character below
+        let list_index = self.push_to_data_block(BasicData::CharList(from.chars().count()))?;
         for c in from.chars() {
             self.push_to_data_block(BasicData::Char(c))?;
         }
